@@ -38,7 +38,14 @@ RULE = ('histories of set_channel / set_measurement / rm_channel / register_prog
         'attributes and public properties after every call.  Streams: all histories of length <= 2 (quick; + 20% of 3) / '
         '<= 4 complete (thorough) over a 10-op alphabet on 2 AWGs x 1 DAC, scenario histories (names spread over all devices, program operations only), guard-respecting histories (no re-wiring of used names, updates keep the device '
         'set), free histories (everything), malformed arguments, targeted defect shapes; thorough adds all histories of '
-        'length <= 3 over a fixed alphabet after a fixed wiring.  Non-trivial = at least one registration returned '
+        'length <= 3 over a fixed alphabet after a fixed wiring.  Object identity (round 3): a pool of Loop objects reused '
+        'across register_program calls (same object again under the same name with / without update, under two names, a '
+        'structurally equal twin, explicit measurements on re-use, a raising call that already dropped the measurements), '
+        'hardware channel objects reused across set_channel calls, wiring changes INSIDE participating generators (output '
+        'moved, outputs of two ids swapped, other transformation, extra output / marker, one of two outputs dropped) '
+        'between registration and re-registration: identity stream, targeted-identity, exhaustive-identity (all histories '
+        '<= 2 + 8% of 3 in quick, <= 3 + 35% of 4 in thorough over an 11-letter alphabet with two pooled objects).  '
+        'Known finding vs VIOLATION is decided by Corr.check_framed in coqc.  Non-trivial = at least one registration returned '
         'normally and one later operation touched devices; distinct = canonical JSON of the case.')
 TRUSTED = [
     'Coq 8.16.1 kernel + vm_compute (no native_compute)',
@@ -46,8 +53,9 @@ TRUSTED = [
     '_measurement_windows, armed_program) cross-checked after every call against what the devices were told through '
     'the AWG/DAC interface and against AWG.programs / known_awgs / known_dacs; HardwareSetup.registered_channels(), '
     '._measurement_map, .registered_programs; DummyAWG.set_volatile_parameters replaced by a recorder',
-    'classification of specification failures (known finding vs VIOLATION) uses the Python mirror of Spec.track_awg / '
-    'track_dac in c18_spec.py',
+    'classification of specification failures (known finding vs VIOLATION) is Corr.check_framed evaluated by coqc; its '
+    'status tracker otrack_awg / otrack_dac is proved equal to Spec.track_awg / track_dac on the model\'s views; the Python '
+    'mirror in c18_spec.py only words messages, histograms and guides shrinking',
     'iteration order of Python sets / dicts inside register_program is not modelled: the channel order, measurement '
     'order and AWG upload order of each call are inputs of the model step; the harness picks an order that explains the '
     'recorded outcome (winner of several names wired to one output / mask), upload order is observed by wrapping upload',
@@ -57,7 +65,9 @@ TRUSTED = [
 ASSUMPTIONS = [
     'devices are DummyAWG / DummyDAC (the real drivers are not importable offline); device methods do not raise '
     'except DummyAWG.upload (ProgramOverwriteException)',
-    'every register_program call gets a fresh Loop object (register_program drops the measurements of the Loop it is given)',
+    'a Loop object may be handed to several register_program calls (pool); "the program\'s own windows" of a call are the '
+    'windows the Loop object has when the call is made (register_program drops them from the Loop: a re-registered '
+    'object has none unless `measurements=` is given)',
     'the property is evaluated on histories of calls that returned normally; calls that raised without any observable '
     'effect are skipped, after a call that raised with an effect the specification is no longer evaluated',
 ]
@@ -1317,26 +1327,61 @@ def histogram_keys(case, obs):
     return keys
 
 
+# Classification of a specification failure is done by Coq: a case that fails the plain routing invariant is an instance
+# of known finding C18-rewire-stale iff Corr.check_framed (the invariant that is PROVED for every history, evaluated on
+# the observations) accepts it.  py_spec remembers the failing cases; the first classify() call evaluates check_framed on
+# all of them in one coqc batch.  The Python mirror in c18_spec.py only words the message and guides shrinking.
+_PENDING = {}
+_FRAMED = {}
+
+
+def _coq_framed(pairs):
+    """[bool]: does Corr.check_framed accept (case, obs)?  fail-closed: False for all when coqc fails"""
+    import tempfile
+    if not pairs:
+        return []
+    wd = tempfile.mkdtemp(prefix='c18_framed_', dir=vlib.BUILD)
+    try:
+        terms = [to_coq(c, o) for c, o in pairs]
+        res = vlib.run_coq_cases(wd, CORR_IMPORTS, ['check_framed'], terms, shard=SHARD, prelude=PRELUDE)
+        bad = set(res['check_framed'])
+        return [i not in bad for i in range(len(pairs))]
+    except RuntimeError:
+        return [False] * len(pairs)
+    finally:
+        vlib.rmtree(wd)
+
+
+def framed_accepts(case, obs):
+    k = vlib.canonical_hash(case)
+    if k not in _FRAMED:
+        _PENDING.setdefault(k, (case, obs))
+        items = list(_PENDING.items())
+        _PENDING.clear()
+        for (kk, _), ok in zip(items, _coq_framed([v for _, v in items])):
+            _FRAMED[kk] = ok
+    return _FRAMED[k]
+
+
 def py_spec(case, obs):
     if 'steps' not in obs:
         return None     # CCrash fails in Coq
     v = S.evaluate(case, obs)
     if v is None:
         return True
+    _PENDING.setdefault(vlib.canonical_hash(case), (case, obs))
     return 'step %d (%s): %s' % (v['step'], case['ops'][v['step']]['op'], v['why'])
 
 
 def classify(case, obs):
     if 'steps' not in obs:
         return None
-    v = S.evaluate(case, obs)
-    if v is None:
-        return None
-    return S.classify(case, obs, v)
+    return 'C18-rewire-stale' if framed_accepts(case, obs) else None
 
 
 def shrink(case, obs, ctx):
-    """drop operations while the specification still fails with the same clause and the case is not a known class"""
+    """drop operations while the specification still fails with the same clause and the case is not a known class
+    (guided by the Python mirror; the result is kept only if Coq's check_framed rejects it as well)"""
     v = S.evaluate(case, obs)
     if v is None:
         return case, obs
@@ -1353,6 +1398,8 @@ def shrink(case, obs, ctx):
                 best, best_obs = dict(trial, ops=ops), {'steps': o['steps'][:len(ops)]}
                 i = min(i, len(ops) - 1)
         i -= 1
+    if best is not case and _coq_framed([(best, best_obs)]) != [False]:
+        return case, obs
     return best, best_obs
 
 
@@ -1360,19 +1407,27 @@ def search_failing(ctx, broken):
     """specification oracle against the implementation on targeted + exhaustive + random histories"""
     import random
     rng = random.Random(12345)
-    known, _ = vlib.load_known_findings()
-    known = known.get(PID, {})
-    pool = targeted(rng) + exhaustive(2) + exhaustive_small(3) + [scenario_history(rng) for _ in range(300)] + \
+    pool = targeted(rng) + targeted_identity() + exhaustive(2) + exhaustive_small(3) + exhaustive_identity(2) + \
+        [scenario_history(rng) for _ in range(300)] + [identity_history(rng) for _ in range(300)] + \
         [rnd_history(rng, rng.randint(6, 15), clean=True) for _ in range(400)] + \
         [rnd_history(rng, rng.randint(6, 15), clean=False) for _ in range(200)]
+    suspects = []
     for c in pool:
         o = run_impl(c)
         if 'steps' not in o:
             return c, o, 'implementation crashed: %s' % o.get('crash', 'hang')
         v = S.evaluate(c, o)
-        if v is not None and S.classify(c, o, v) not in known:
-            c2, o2 = shrink(c, o, ctx)
-            return c2, o2, py_spec(c2, o2)
+        if v is not None:
+            if S.classify(c, o, v) is None:
+                suspects.insert(0, (c, o))
+            else:
+                suspects.append((c, o))
+    for k in range(0, len(suspects), 400):
+        chunk = suspects[k:k + 400]
+        for (c, o), ok in zip(chunk, _coq_framed(chunk)):
+            if not ok:
+                c2, o2 = shrink(c, o, ctx)
+                return c2, o2, py_spec(c2, o2)
     return None
 
 
@@ -1385,16 +1440,23 @@ MANIFEST = {
                   'covered names (wiring of a used name changed after registration) the copies sit exactly on the recorded '
                   'devices, and remove_program / register_program(update) / clear_programs with all recorded devices wired '
                   'make the name clean again; armed => held for every name that is not lost.  Post-conditions for arm, '
-                  'remove, clear and update_parameters (exactly the used generators) after any history.  Under the round-1 '
+                  'remove, clear and update_parameters after any history, for clean AND (round 3) covered names (arm: every '
+                  'wired generator / device holding a copy is armed, other wired generators disarmed; update_parameters: '
+                  'exactly the wired holders).  The observation-level framed check that separates the known finding from '
+                  'a VIOLATION is a Coq function; its status tracker is proved equal to the specification\'s and its '
+                  'invariant part is proved to accept every view of the model after every history.  Under the round-1 '
                   'guard (no re-wiring of used names) all names stay clean (guarded theorems kept).  The plain invariant '
                   'without framing is refuted by a 3-call witness (known finding C18-rewire-stale).  Model tied to the '
-                  'code by a step-by-step correspondence check on the real objects after every call.',
-    'level_note': 'Trusted: Coq kernel, harness (incl. the Python mirror of the status tracking used to classify failures), '
-                  'DummyAWG/DummyDAC as stand-ins for real drivers (set_volatile_parameters replaced by a recorder), '
-                  'set/dict iteration order inside register_program is an input of the model chosen to explain the '
-                  'observed outcome, Loop.get_measurement_windows as the program\'s own windows.  Two defects of the '
-                  'unchanged code were repaired in round 1 (825add7, a019130); C18-rewire-stale is a listed known '
-                  'finding (refusing to re-wire a used name would break the documented re-wire + update workflow).',
+                  'code by a step-by-step correspondence check on the real objects after every call, with program objects '
+                  'and channel objects reused across calls.',
+    'level_note': 'Trusted: Coq kernel, harness, DummyAWG/DummyDAC as stand-ins for real drivers (set_volatile_parameters '
+                  'replaced by a recorder), set/dict iteration order inside register_program is an input of the model '
+                  'chosen to explain the observed outcome, Loop.get_measurement_windows (at call time) as the program\'s '
+                  'own windows.  Status is per (side, name), not per (device, name): only the single-step per-generator '
+                  'frame lemma is proved.  The post-condition clauses of check_framed are not proved complete against the '
+                  'model (only the invariant clauses are).  Two defects of the unchanged code were repaired in round 1 '
+                  '(825add7, a019130); C18-rewire-stale is a listed known finding (refusing to re-wire a used name would '
+                  'break the documented re-wire + update workflow).',
     'technique': 'Coq invariant proof over operation histories + correspondence check on HardwareSetup with dummy devices',
     'design_ref': 'DESIGN.md §5 C18',
 }
